@@ -320,21 +320,36 @@ class AlgTheory(Theory):
                 if interp.run.branch(some):
                     from pyvc.values import PyRaise
                     raise PyRaise(o[1])
-            R = op_seq('mapped', seq.length)
+            # the result list is defined element-wise; its elements may be operators, structures, booleans, vectors
+            # (any z3 sort) or literal tuples of such terms (one defined array per component)
+            R, tup = None, False
             for c, o in normal:
                 v = o[1]
-                if not (is_z3(v) and v.sort() == Op):
+                comps = tuple(z3.BoolVal(x) if isinstance(x, bool) else x for x in (v if isinstance(v, tuple) else (v,)))
+                if not comps or not all(is_z3(x) for x in comps):
                     if isinstance(v, Obj):
                         raise Unsupported('tree.map over a symbolic container with a function building operator objects')
                     raise Unsupported(f'tree.map over a symbolic container returning {v!r}')
-                body = z3.Implies(z3.And(j >= 0, j < n, zbool(c)) if c is not True else z3.And(j >= 0, j < n),
-                                  R.arr[j] == v)
-                interp.run.assume(z3.ForAll([j], body, patterns=[R.arr[j]]))
-            res = B.PyList(None, seq=R)
+                if R is None:
+                    tup = isinstance(v, tuple)
+                    R = [SSeq.fresh('mapped', x.sort(), None, 'list', seq.length) for x in comps]
+                elif tup != isinstance(v, tuple) or [r.arr.sort().range() for r in R] != [x.sort() for x in comps]:
+                    raise Unsupported('tree.map over a symbolic container: results of different kinds on different paths')
+                rng = z3.And(j >= 0, j < n, zbool(c)) if c is not True else z3.And(j >= 0, j < n)
+                for r, x in zip(R, comps):
+                    interp.run.assume(z3.ForAll([j], z3.Implies(rng, r.arr[j] == x), patterns=[r.arr[j]]))
+            if R is None:
+                R = [op_seq('mapped', seq.length)]
+            if tup:
+                rs = SSeq(seq.length, lambda k, R=R: tuple(r.get(k) for r in R), 'list')
+                rs.components = R
+            else:
+                rs = R[0]
+            res = B.PyList(None, seq=rs)
         res.treedef = getattr(tree, 'treedef', 0)
-        if res.seq is not None:
+        if res.seq is not None and hasattr(res.seq, 'arr') and res.seq.arr.sort().range() == Op:
             self.after_seq_map(interp, res.seq, seq)
-            if len(others) == 1:
+            if len(others) == 1 and others[0].get(fresh_int('probe')).sort() == Op:
                 # block-wise products of two containers: LA4 instances for the lists at hand
                 run = interp.run
                 pa, la_, ra_ = arr_of(run, res.seq, interp), arr_of(run, seq, interp), arr_of(run, others[0], interp)
@@ -358,6 +373,8 @@ class AlgTheory(Theory):
         m = {'inputs': dict(S.inputs), 'func': S.func_name, 'scenario': S.label}
         if S.oracle:
             m['oracle'] = S.oracle
+        if getattr(S, 'pre_finding', None):
+            m['finding'] = S.pre_finding       # the scenario isolates a listed finding in its dependency preconditions
         return m
 
     def bind(self, interp):
@@ -436,6 +453,8 @@ class AlgTheory(Theory):
                     return isHom(v)
                 if c.info == self.cls_id:
                     return isId(v)
+                if c.info.name == 'AbstractLinearOperator':
+                    return True         # a term of sort Op IS an operator (closed world: every class derives from it)
                 ids = self.class_ids()
                 subs = [ids[d.fullname] for d in self.P.subclasses(c.info, concrete_only=True) if d.fullname in ids]
                 return z_or(*[cls_of(v) == i for i in subs])
